@@ -30,7 +30,7 @@ ID = "C01"
 LEVEL = "exploration"
 TECHNIQUE = "property-based statistical testing: Hypothesis draws thermodynamic parameters/proposals/seeds, long chains through the real drivers are compared with closed-form statistical mechanics (batch-means z-tests with effect-size floor, KS / chi-square at fixed alpha)"
 RULE = (
-    "case = (scenario out of 16 scenario x proposal kinds, seed, temperature / spring constant / field / pressure / chemical potential / particle number / proposal size drawn by Hypothesis, chain length). "
+    "case = (scenario out of 17 scenario x proposal kinds, seed, temperature / spring constant / field / pressure / chemical potential / particle number / proposal size drawn by Hypothesis, chain length). "
     "Non-trivial = acceptance rate within (0.05, 0.95) and effective sample size >= 500 (batch means); a chain with ESS < 50 is reported inconclusive (the z-test itself stays valid for poorly mixing chains because the batch-means standard error grows with the autocorrelation). "
     "distinct = (scenario, N, rounded parameters, seed)."
 )
@@ -50,7 +50,7 @@ DESIGN_REF = "DESIGN.md section 3, C01"
 AMU = sc.physical_constants["atomic mass constant"][0]
 SCENARIOS = [
     "harm:Ball", "harm:Box", "harm:Sphere", "harm:CompOp", "harm:mulN", "harm:add", "harm:HMC", "dipole:Rotation", "dipole:TransRot",
-    "npt:cell", "npt:cell+disp", "gc:atomic:cubic", "gc:atomic:tri+disp", "gc:diatomic:cubic", "gc:diatomic:tri", "harm:HMC2",
+    "npt:cell", "npt:cell+disp", "gc:atomic:cubic", "gc:atomic:tri+disp", "gc:diatomic:cubic", "gc:diatomic:tri", "harm:HMC2", "harm:HMC+Ball",
 ]
 
 
@@ -78,8 +78,11 @@ def case_st(draw, scenario, steps):
         c["size"] = draw(fl(1.2, 3.0)) if kind2 == "mulN" else draw(fl(0.5, 3.0))  # in thermal widths sqrt(kT/k)
         # dt * omega_max (velocity Verlet is stable below 2); the second Hamiltonian scenario uses large steps so
         # that rejected trajectories - and whatever they leave behind - are frequent
-        c["dtw"] = draw(fl(0.9, 1.5)) if scenario.endswith("HMC2") else draw(fl(0.5, 1.7))
-        c["nsteps"] = draw(st.integers(3, 15))
+        # HMC2 / HMC+Ball: 10-50 % of the trajectories rejected, chain still mixing (measured: a stale-force integrator
+        # biases <E> by 5-15 % there; above dt*omega ~ 1.3 it merely freezes the chain, which proves nothing)
+        rough = scenario.endswith("HMC2") or scenario.endswith("HMC+Ball")
+        c["dtw"] = draw(fl(0.95, 1.2)) if rough else draw(fl(0.5, 1.7))
+        c["nsteps"] = draw(st.integers(3, 8)) if rough else draw(st.integers(3, 15))
         c["masses"] = [draw(fl(1, 100)) for _ in range(8)]
     elif kind == "dipole":
         c["x"] = draw(fl(0.3, 5.0))
@@ -90,12 +93,14 @@ def case_st(draw, scenario, steps):
         c["V0"] = draw(fl(300, 3000))
         c["size"] = draw(fl(0.05, 0.4))
         c["meanV"] = draw(fl(300, 3000))
+        c["lh"] = scenario.endswith("+disp") or draw(st.booleans())  # left-handed lattice (negative determinant)
     else:
         c["target"] = draw(st.one_of(fl(0.3, 8.0), fl(0.3, 1.5)))  # low occupancies visit the empty box
         c["L"] = draw(fl(8.0, 14.0))
         c["shear"] = [draw(fl(-0.3, 0.3)) for _ in range(3)]
         c["n0"] = draw(st.integers(0, 4))
         c["bond"] = draw(fl(0.8, 1.5))
+        c["lh"] = draw(st.booleans())
     return c
 
 
@@ -173,6 +178,9 @@ def run_harm(c, out):
             from ase.units import fs
 
             mc.add_move(HamiltonianDisplacementMove(operation=Verlet(dt=c["dtw"] / (omega * fs), max_steps=c["nsteps"])), name="hmc")
+            if prop == "HMC+Ball":
+                # both proposal kinds in one Hamiltonian run, each judged by the driver's default criteria
+                mc.add_move(DisplacementMove(labels, Ball(s)), name="d")
         else:
             mc = Canonical(atoms, temperature=c.get("T0") or T, max_cycles=1, seed=c["seed"])
             from quansino.mc.criteria import CanonicalCriteria
@@ -190,10 +198,43 @@ def run_harm(c, out):
                 mv = DisplacementMove(labels, Ball(s)) * N
             else:
                 mv = DisplacementMove(labels, Ball(s)) + DisplacementMove(labels, Box(0.7 * s))
-            mc.add_move(mv, criteria=CanonicalCriteria(), name="d")
+            if prop in ("Ball", "Sphere", "CompOp"):
+                mc.add_move(mv, name="d")  # the driver's default criteria for the move's type
+            else:
+                mc.add_move(mv, criteria=CanonicalCriteria(), name="d")
         e = np.empty(c["steps"])
         acc = 0
         from vlib.calcs import model_energy_forces
+
+        if prop.startswith("HMC"):
+            # An integrator is (dt, number of steps) and nothing else: a chain whose Hamiltonian move gets a newly built
+            # integrator before every trial must be the very same chain.  (A stale cache inside the integrator biases the
+            # averages only erratically - or freezes the chain, which the statistics must call inconclusive.)
+            def twin(fresh_each_trial):
+                a2 = Atoms("H" * N, positions=np.full((N, 3), 5.0) + np.arange(N)[:, None] * 0.01, cell=[10, 10, 10])
+                a2.set_masses(c["masses"][:N])
+                a2.calc = FastCalc("harmonic", {"k": k, "center": (5.0, 5.0, 5.0)})
+                m2 = HamiltonianCanonical(a2, temperature=T, max_cycles=1, seed=c["seed"])
+                hm = HamiltonianDisplacementMove(operation=Verlet(dt=c["dtw"] / (omega * fs), max_steps=c["nsteps"]))
+                m2.add_move(hm, name="hmc")
+                if prop == "HMC+Ball":
+                    m2.add_move(DisplacementMove(labels, Ball(s)), name="d")
+                rows = []
+                for _i in range(600):
+                    if fresh_each_trial:
+                        hm.operation = Verlet(dt=c["dtw"] / (omega * fs), max_steps=c["nsteps"])
+                    for _ in m2.srun(1):
+                        pass
+                    rows.append(a2.positions.tobytes())
+                return rows
+
+            ra, rb = twin(False), twin(True)
+            if ra != rb:
+                first = next(i for i, (x, y) in enumerate(zip(ra, rb)) if x != y)
+                out["violation"] = {"kind": "hmc-depends-on-integrator-history:" + prop,
+                                    "detail": f"{c['scenario']} N={N} seed={c['seed']} dt*omega={c['dtw']:.3g}: the chain differs from step {first + 1} on when the move's integrator is replaced by a newly built, identical one before every trial"}
+                out["acc"], out["ess"] = 0.5, 0.0
+                return
 
         prestage(mc, c, out, temperature=T)
 
@@ -274,7 +315,11 @@ def run_npt(c, out):
     P = (N + 1) * kT / c["meanV"]
     L = c["V0"] ** (1 / 3)
     rng = np.random.default_rng(c["seed"])
-    atoms = Atoms("Ar" * N, positions=rng.uniform(0, L, (N, 3)), cell=[L, L, L], pbc=True)
+    cell0 = np.eye(3) * L
+    if c.get("lh"):
+        cell0 = cell0[[1, 0, 2]]
+        out["labels"].append("left-handed-cell")
+    atoms = Atoms("Ar" * N, positions=rng.uniform(0, L, (N, 3)), cell=cell0, pbc=True)
     atoms.calc = FastCalc("ideal")
     with warnings.catch_warnings():
         warnings.simplefilter("ignore")
@@ -318,6 +363,9 @@ def run_gc(c, out):
     cell = np.eye(3) * L
     if geom.startswith("tri"):
         cell[1, 0], cell[2, 0], cell[2, 1] = c["shear"][0] * L, c["shear"][1] * L, c["shear"][2] * L
+    if c.get("lh"):
+        cell = cell[[1, 0, 2]]
+        out["labels"].append("left-handed-cell")
     V = abs(np.linalg.det(cell))
     if species == "atomic":
         tpl = Atoms("Ar", positions=[[0, 0, 0]])
@@ -454,7 +502,9 @@ def plan(tier):
 
 def run_part(part, seed, shard, nshards, budget):
     steps = budget["steps"]
-    if part.startswith("harm:HMC"):
+    if part in ("harm:HMC+Ball", "harm:HMC2"):
+        steps = max(steps // 3, 20000)  # short trajectories (HMC2) / half of the trials are cheap ball moves
+    elif part.startswith("harm:HMC"):
         steps = max(steps // 6, 10000)
     return hyp.search(case_st(part, steps), run_case, budget["n_examples"], seed, part, shrink=False, max_samples=2, skip_zero=True)
 
